@@ -1,9 +1,16 @@
 import NdnModel.SegFetch
+import NdnModel.SegFetchNames
 /-  Line protocol for the segmented-fetch model:
     `C19 <obj> <disc> <limit> <script>`
         obj ::= u | s:. | s:<fbi>,<fbi>,…   (fbi ::= ~ | n; segment i has content id i, the unsegmented object 999)
         script ::= . | string over d t n v
-    answer `ok <yielded ids | .> <log | .> <end>`   log ::= entry,entry,…  entry ::= (D | S<i>)<outcome letter> -/
+    answer `ok <yielded ids | .> <log | .> <end>`   log ::= entry,entry,…  entry ::= (D | S<i>)<outcome letter>
+
+    With two more arguments `<prefix> <base>` (names as `,`-separated hex components, `.` = the empty name; for an
+    unsegmented object `<base>` is the full name of its Data) the names-level model runs as well
+    (`Ndn.SegFetch.fetchB` against `producer`: it builds every Interest name itself, `name[-1] = from_segment(n)`),
+    and the answer gets three more tokens: `<yielded> <end> <namelog | .>`,
+    namelog ::= entry;entry;…  entry ::= <name>:<outcome letter> — every Interest name byte for byte. -/
 namespace Ndn.Drv.C19
 open Ndn Ndn.SegFetch
 
@@ -32,8 +39,29 @@ def sEnd : End → String
   | .done => "done" | .timeout => "InterestTimeout" | .nack => "InterestNack" | .invalid => "ValidationFailure"
   | .fuel => "FUEL"
 
+def sEndB : EndB → String
+  | .fin e => sEnd e
+  | .raised e => "raised:" ++ e.name
+
+def objB (o : Obj) (base : List Bytes) : ObjB × Nat :=
+  match o with
+  | .unseg c => (.unseg base c, 1)
+  | .segs l => (.segs base l, l.length + 1)
+
 def handle (args : List String) : String :=
   match args with
+  | [obj, disc, limit, script, pre, base] =>
+    match pObj obj, disc.toNat?, limit.toNat?, (if script == "." then some [] else script.toList.mapM pOutcome),
+        fromHexList pre, fromHexList base with
+    | some o, some d, some l, some sc, some p, some b =>
+      let r := fetch ⟨o, d, sc, l⟩
+      let (ob, fuel) := objB o b
+      let rb := fetchB l (producer p ob d) p fuel sc
+      "ok " ++ showNatList r.yielded ++ " " ++
+        (if r.log.isEmpty then "." else ",".intercalate (r.log.map fun e => sReq e.1 ++ sOutcome e.2)) ++ " " ++ sEnd r.end_ ++
+        " " ++ showNatList rb.yielded ++ " " ++ sEndB rb.end_ ++ " " ++
+        (if rb.log.isEmpty then "." else ";".intercalate (rb.log.map fun e => toHexList e.1 ++ ":" ++ sOutcome e.2))
+    | _, _, _, _, _, _ => "bad-op"
   | [obj, disc, limit, script] =>
     match pObj obj, disc.toNat?, limit.toNat?, (if script == "." then some [] else script.toList.mapM pOutcome) with
     | some o, some d, some l, some sc =>
